@@ -348,10 +348,13 @@ def quit_histories(path, E, rng, tier, work):
                 sp = saved_prob(fn)
                 pcfg = ptq.load_pcfg(path, save_file=fn)
                 r = session.run_session(pcfg, cfg, fn, load=True, quit_at_guess=g)
-            sess.append({'lines': r['lines'], 'q': r['quit'], 'saved': sp, 'qn': g if r['quit'] else None})
+            # a quit "happened" when it stopped the run (the state was saved); a request that arrives after the last
+            # guess stops nothing: the run completes, nothing is saved, the history of quit/resume cycles is over
+            took = bool(r['quit'] and r['saves'])
+            sess.append({'lines': r['lines'], 'q': took, 'saved': sp, 'qn': g if took else None})
             total += len(r['lines'])
-            if not r['quit']:
-                break           # ran to the end without a quit: nothing is saved, the history of quit/resume cycles is over
+            if not took:
+                break
         if sess[-1]['q']:
             sess.append(resume_to_end(path, fn))
         res.append((sess, {'quit_after_guesses': plan, 'via': 'CrackingSession.run, scripted keyboard thread'}))
